@@ -1019,7 +1019,7 @@ class Databases(registry.SpaceSeparatedListOfStrings):
         return v
 
     def serialize(self):
-        return ' '.join(self.value)
+        return registry.encoder(' '.join(self.value))[0].decode()
 
 registerGlobalValue(supybot, 'databases',
     Databases([], _("""Determines what databases are available for use. If this
